@@ -4,12 +4,14 @@ import (
 	"crypto/sha256"
 	"encoding/json"
 	"fmt"
+	"os"
 	"strings"
 
 	"github.com/corestario/kyber/encrypt/ecies"
 	"github.com/corestario/kyber/pairing/bls12381"
 	dkgPedersen "github.com/corestario/kyber/share/dkg/pedersen"
 
+	"github.com/lidofinance/dc4bc/airgapped"
 	"github.com/lidofinance/dc4bc/client/types"
 	"github.com/lidofinance/dc4bc/dkg"
 	"github.com/lidofinance/dc4bc/fsm/fsm"
@@ -208,6 +210,7 @@ func runC11(r *kit.Run, n, t, D, V int, dv deviation, allOrders bool) {
 	run.Setup(r)
 	defer run.Close()
 	k := run.K
+	refed := 0
 	trace := func(s *worldx.State) interface{} {
 		return map[string]interface{}{"scenario": label, "trace": s.Trace()}
 	}
@@ -240,6 +243,47 @@ func runC11(r *kit.Run, n, t, D, V int, dv deviation, allOrders bool) {
 				r.Violation("C11/round-not-cancelled/"+dv.Kind, fmt.Sprintf("%s: node %d ends in %s", label, j, st), trace(s))
 			}
 		}
+		// (4) the refusal is stable: the operation the victim refused, fed to the same running
+		// machine again (the operator scans it a second time) and then replayed from the log on
+		// the running machine, is refused again - it must never turn into an approval
+		for _, v := range dv.Victims(n, D, V) {
+			a, err := k.MachineAt(s, v)
+			if err != nil {
+				r.Infra("%s: machine %d: %v", label, v, err)
+			}
+			raw, _ := a.M.VerifDBGet("operations_log")
+			var lg airgapped.RoundOperationLog
+			_ = json.Unmarshal(raw, &lg)
+			ops := lg[run.Round]
+			if len(ops) == 0 {
+				continue
+			}
+			last := ops[len(ops)-1]
+			first, ferr := a.Process(&last)
+			a.Ops = []string{"<fed again by C11>"} // the worker must rebuild this machine before reusing it
+			if ferr != nil || first == nil {
+				continue
+			}
+			refed++
+			refusedBefore := false
+			for _, m := range s.Log {
+				if m.SenderAddr == run.W.Nodes[v].Name && strings.HasSuffix(m.Event, "_canceled_by_error") {
+					refusedBefore = true
+				}
+			}
+			if refusedBefore && !strings.HasSuffix(string(first.Event), "_canceled_by_error") {
+				r.Violation("C11/refusal-not-stable/"+dv.Kind, fmt.Sprintf("%s: participant %d's machine refused the %s operation, but answers %s when the same operation is fed to it again", label, v, last.Type, first.Event), trace(s))
+				continue
+			}
+			if rerr := a.M.ReplayOperationsLog(run.Round); rerr == nil {
+				if bz, e2 := os.ReadFile(a.ResultFile(&last)); e2 == nil {
+					var again types.Operation
+					if json.Unmarshal(bz, &again) == nil && refusedBefore && !strings.HasSuffix(string(again.Event), "_canceled_by_error") {
+						r.Violation("C11/refusal-not-stable/"+dv.Kind, fmt.Sprintf("%s: participant %d's machine refused the %s operation, but after replaying its operation log on the running machine the result file says %s", label, v, last.Type, again.Event), trace(s))
+					}
+				}
+			}
+		}
 		// (3) no honest machine stores a share
 		for i := 0; i < n; i++ {
 			if i == D {
@@ -257,6 +301,7 @@ func runC11(r *kit.Run, n, t, D, V int, dv deviation, allOrders bool) {
 	})
 	r.Add("states", res.States)
 	r.Add("transitions", res.Transitions)
+	r.Add("refusals_fed_again", refed)
 	if V == (D+1)%n && D == 0 {
 		r.Sample(map[string]interface{}{"scenario": label, "states": res.States})
 	}
